@@ -330,7 +330,7 @@ fn run_e2e(kind: &str, f: &[&str]) -> String {
     let echo_responder = Responder::new("b-echo", Echo, &matter_b, 0);
     let outcome = e2e::block_on(async {
         let b_app = async {
-            if kind == "Q" {
+            if kind == "Q" || kind == "Z" {
                 echo_responder.run::<4>().await
             } else {
                 sc_responder.run::<4>().await
@@ -353,6 +353,30 @@ fn run_e2e(kind: &str, f: &[&str]) -> String {
                 "C" => {
                     let ex = Exchange::initiate_plaintext(&matter_a, &crypto, peer).await?;
                     CaseInitiator::perform(ex, &crypto, fab_a, B_NODE).await
+                }
+                "Z" => {
+                    // the application abandons a reliable send before it is acknowledged (its future is
+                    // dropped after `abandon` ms) and then hands ANOTHER message to the same exchange: while
+                    // the first one is pending that must be refused, never sent under the pending counter
+                    let abandon: u64 = field(f, "abandon").parse().unwrap_or(30);
+                    let mut ex = Exchange::initiate(&matter_a, &crypto, NonZeroU8::new(1).unwrap(), B_NODE).await?;
+                    let first = [1u8, 0xaa, 0xaa, 0xaa, 0xaa];
+                    {
+                        let send1 = ex.send(MessageMeta::new(PROTO, 1, true), &first);
+                        let _ = select(core::pin::pin!(send1), core::pin::pin!(Timer::after(Duration::from_millis(abandon)))).await;
+                    }
+                    let mut res = Ok(());
+                    for m in 0..n {
+                        let mut other = [3u8, 0x55, 0x55, 0x55, 0x55];
+                        other[1] = m as u8;
+                        if let Err(e) = ex.send(MessageMeta::new(PROTO, 3, true), &other).await {
+                            res = Err(e);
+                            break;
+                        }
+                    }
+                    // let the retransmissions of whatever is pending go out
+                    Timer::after(Duration::from_millis(250)).await;
+                    res
                 }
                 _ => {
                     let mut ex = Exchange::initiate(&matter_a, &crypto, NonZeroU8::new(1).unwrap(), B_NODE).await?;
@@ -405,7 +429,7 @@ fn run_line(line: &str, out: &mut String) {
         "M" => writeln!(out, "M {} {}", f[1], run_n(f[2].parse().unwrap(), f[3].parse().unwrap(), f.get(5).copied().unwrap_or(""), Some(f[4] == "c"))).unwrap(),
         "A" => writeln!(out, "A {} {}", f[1], run_a(f[2].parse().unwrap(), f.get(3).copied().unwrap_or(""))).unwrap(),
         "X" => writeln!(out, "X {} {}", f[1], run_x(f[2].parse().unwrap(), f.get(3).copied().unwrap_or(""))).unwrap(),
-        "P" | "C" | "Q" => writeln!(out, "{} {} {}", f[0], f[1], run_e2e(f[0], &f[2..])).unwrap(),
+        "P" | "C" | "Q" | "Z" => writeln!(out, "{} {} {}", f[0], f[1], run_e2e(f[0], &f[2..])).unwrap(),
         _ => {}
     }
 }
@@ -610,6 +634,12 @@ fn generate(tier: &str, seed: u64) -> Vec<String> {
     }
     for (ab, ba) in [("", ""), ("x", ""), ("", "x"), ("d.x", "x.d"), ("u", "u"), ("", "x.x"), ("h1.d", "")] {
         cases.push(format!("Q {} n=3 ab={} ba={}", nid(), ab, ba));
+    }
+    // an abandoned reliable send followed by another message on the same exchange
+    for (abandon, ab, ba) in [(30u32, "x.x.x.x.x.x.x", ""), (30, "x.d", "x.x"), (120, "x.x.x.x.x.x.x", ""), (10, "d", "x.x.x"), (30, "x.x", "")] {
+        for n in [1u32, 2] {
+            cases.push(format!("Z {} n={} abandon={} ab={} ba={}", nid(), n, abandon, ab, ba));
+        }
     }
     cases
 }
